@@ -24,7 +24,7 @@ run-time panic, the inner `Except FenError` the engine's orderly rejection.
   cannot panic (`FenLemmas.oppCheck_total`).
 * concrete `example`s by kernel evaluation: acceptance of the start position, orderly rejections, and
   round trips against the independent writer `Spec.toFen`. The GENERAL round-trip theorem against
-  `Spec.toFen` is not proved (see the note before the round-trip examples).
+  `Spec.toFen` is in `Magog/Props/C08RoundTrip.lean` (`fen_roundtrip`, `fen_roundtrip_string`).
 
 The definitions `FenInv`, `FenLists`, `FenFaithful`, `expandRank`, `strBytes`, `countCodes`, `accepted`,
 `rejectedWith` are in `Magog/Spec/FenInv.lean`, `roundTrips` in `Magog/Spec/FenRoundTrip.lean`; the proofs in
@@ -147,10 +147,10 @@ example : ∃ p, FenFaithful (strBytes "rnbqkbnr/pppppppp/8/8/8/8/PPPPPPPP/RNBQK
 /-! Round trip against the independent writer `Spec.toFen` (Magog/Spec/Fen.lean), through the abstraction
     `abs` — by kernel evaluation on concrete positions only.
 
-    MISSING (stretch goal, not proved): the general theorem
-    `fen_roundtrip : WellFormed P → parseFen (strBytes (Spec.toFen P n)) = .ok (.ok p) ∧ abs p = P`
-    for all specification positions `P`. What IS proved in general is `fen_faithful`: the accepted
-    position is determined by the input through the simple denotation `expandRank`. -/
+    The general theorem (for all `Spec.Legal` positions `P`)
+    `Spec.Legal P → … → ∃ p, parseFen (strBytes (Spec.toFen P n)) = .ok (.ok p) ∧ abs p = P ∧ …`
+    is `Props.C08RoundTrip.fen_roundtrip_string` (Magog/Props/C08RoundTrip.lean); it builds on `fen_faithful`-level
+    facts: the accepted position is determined by the input through the simple denotation `expandRank`. -/
 
 example : roundTrips "rnbqkbnr/pppppppp/8/8/8/8/PPPPPPPP/RNBQKBNR w KQkq - 0 1" 1 = true := by decide +kernel
 example : roundTrips "r3k2r/p1ppqpb1/bn2pnp1/3PN3/1p2P3/2N2Q1p/PPPBBPPP/R3K2R w KQkq - 0 1" 1 = true := by
